@@ -21,6 +21,7 @@ import c04
 import c08
 import c11
 import fixtures
+import incgraph
 import rel
 import textfn
 from common import Check, b64, harness, seed, unb64
@@ -203,6 +204,8 @@ def main(tier):
             chk.violation("diagnostic of run %s: %s does not agree with index %d (line %d, quote %r)" % (cid, rep["why"], e["index"], e["line"], e["quote"]),
                           {"kind": "located_run", "case": next(c for c in cases if c["id"] == cid), "signature": sig}, sig)
     chk.sample({"location_table": {"alphabet": "a sp LF CR", "max_len": maxlen, "rows": len(pairs)}})
+    # include graphs enumerated by TLC (spec/JSightInclude.tla), replayed with the file-operation hook on
+    incgraph.run(chk, tier, "C02")
     chk.rule = ("location table: all single-convention contents <= %d x all indices; rejected runs of fixtures, TLC-generated "
                 "multi-fault documents (LF/CRLF/CR) and faults injected into included files of 6 multi-file forms" % maxlen)
     chk.assumptions += ["the include-trace relation (each path:line holds the INCLUDE leading to the previous entry) is evaluated by "
@@ -214,6 +217,9 @@ def replay(path):
     rp = json.load(open(path))["replay"]
     chk = Check("C02", "quick")
     chk.evaluations = 1
+    if rp["kind"] == "include_graph":
+        incgraph.replay(chk, rp, "C02")
+        return chk.finish()
     if rp["kind"] == "location_fn":
         r = location_rows([(rp["content"], rp["index"])])[0]
         print("now: line %s quote %r panic %s" % (r["line"], textfn.dec(r["out"]), r["panic"]))
